@@ -2,24 +2,19 @@ package main
 
 import (
 	"fmt"
+	"os"
+	"strings"
 
 	"verifmc/scen"
 )
 
 func main() {
-	w, err := scen.NewWriters("eventlog", 2, scen.LogAlphabet("one"))
-	if err != nil {
-		panic(err)
-	}
-	for _, a := range []string{`w1:add("x")`, `w0:add("x")`, "m10"} {
-		if err := w.Do(a); err != nil {
-			panic(err)
-		}
-	}
-	for i, s := range w.Stores {
-		fmt.Println("replica", i)
-		for _, e := range s.OpLog().Values().Slice() {
-			fmt.Printf("  %s t=%d id=%x key=%x\n", w.EID(e), e.GetClock().GetTime(), e.GetClock().GetID(), e.GetKey())
+	hist := strings.Split(os.Args[1], " ; ")
+	for run := 0; run < 20; run++ {
+		vs := scen.DebugRun(os.Args[2], hist)
+		fmt.Println(run, len(vs))
+		for _, v := range vs {
+			fmt.Println("   ", v.Signature, v.Detail)
 		}
 	}
 }
